@@ -32,6 +32,7 @@ class BaseFail(BaseException):
 
 
 FLAG = {}
+SLOW = [0]
 
 
 def init_worker(k):
@@ -45,6 +46,8 @@ def task(logdir, call_no, i, fails, delay, exc="TaskFail"):
     if delay:
         time.sleep(delay)
     if fails:
+        with open(os.path.join(logdir, "fail_time"), "w") as fh:
+            fh.write(repr(time.time()))
         if exc == "SystemExit":
             raise SystemExit("task failed", i)
         if exc == "KeyboardInterrupt":
@@ -59,7 +62,10 @@ def gen_input(logdir, call_no, N, tfail, ifail, rng, exc="TaskFail"):
     for i in range(N):
         if ifail is not None and i == ifail:
             raise KeyError("input failed", i)
-        yield delayed(task)(logdir, call_no, i, i in tfail, rng.choice([0, 0, 0.001, 0.003]), exc)
+        d = rng.choice([0, 0, 0.001, 0.003])
+        if SLOW[0] and call_no == 1:
+            d = 0.3 if i in tfail else SLOW[0]      # the other tasks of the failing call are still running when it fails
+        yield delayed(task)(logdir, call_no, i, i in tfail, d, exc)
     if ifail is not None and ifail >= N:
         raise KeyError("input failed", N)
 
@@ -93,11 +99,16 @@ def one_call(p, c, logdir, call_no, rng, tfail, ifail):
             out["values"] = [list(v) for v in r]
     except BaseException as e:  # noqa
         out["raised"] = [type(e).__name__, [a if isinstance(a, (int, str)) else repr(a) for a in e.args]]
+        try:
+            out["latency"] = round(time.time() - float(open(os.path.join(logdir, "fail_time")).read()), 2)
+        except (OSError, ValueError):
+            pass
     return out
 
 
 def run(c):
     rng = random.Random(c.get("seed", 0))
+    SLOW[0] = c.get("slow", 0)
     logdir = tempfile.mkdtemp(prefix="verif-m1real-")
     kw = dict(n_jobs=c["n_jobs"], batch_size=c["batch_size"], pre_dispatch=c["pre_dispatch"],
               return_as=c["return_as"], verbose=c.get("verbose", 0))
